@@ -644,7 +644,7 @@ def tr_conc(run, objs=None):
         g = glob[key]
         accs = sorted(set(g["acc"]))
         acc_terms = "; ".join("mkAcc %s %s %s %s" % (q(f), q(fn), q(kind), q(detail)) for (f, fn, kind, detail) in accs)
-        recs.append("  mkGobj %s %s %s %s %s %s\n    [%s]" % (q(g["name"]), q(g["scope"]), q(g["file"]), "true" if g["const"] else "false",
+        recs.append("  mkGobj %s %s %s %s %s %s %s\n    [%s]" % (q(g["name"]), q(g["scope"]), q(g["file"]), q(g["type"]), "true" if g["const"] else "false",
                                                            "true" if g["tls"] else "false", q(g["init_addr_of"] or ""), acc_terms))
     lines.append("Definition globals : list gobj := [\n%s\n]." % ";\n".join(recs))
     lines.append("Definition fn_refs : list (string * list string) := [\n%s\n]." % ";\n".join(
